@@ -51,6 +51,20 @@ CHECKS = {
    note="Trusted: Coq kernel + VM; hand-written model of loader.go; filepath.Walk order (lexical) and os semantics as exercised; the parser is an oracle here (C09/C10). No axioms.",
    technique="Coq proof (case analysis + induction over walk listings) + exhaustive-grid differential correspondence on real directory trees",
    design="§5 C12"),
+ "C18": dict(
+   text="Proof: Coq theorems over every well-formed template and every file tree (any size), with the exact ordered list of mutations the Go "
+        "code issues as the model's output: after ANY prefix of the mutations every node outside factory/ (user/**, hidi.toml, an existing "
+        "blacklist, extra files) is unchanged (C18_user_untouched - no type-consistency needed); a complete run makes every factory path equal its "
+        "template node (C18_factory_restored); blacklist created iff absent (C18_blacklist); absent directory -> exactly the template tree "
+        "(C18_fresh); a second run issues no mutation (C18_idempotent); after an interruption at any mutation or inside any write a later run "
+        "restores the factory part and keeps user data (C18_crash_recovery); type conflicts give an error with user data intact "
+        "(C18_type_conflict_safe). Tie to /repo: the real updateHIDIConfiguration (package main, ALSA stub overlay) runs on generated trees "
+        "(each factory file absent/truncated/modified/longer/intact, directories absent, user and extra files, blacklist present/absent, dir absent), "
+        "before/after trees and the second run compared with the model in coqc, the model's crash states materialised as real trees and re-run, "
+        "and the ORDER of successful mutating syscalls under strace compared with the model's op list.",
+   note="Trusted: Coq kernel + VM; hand-written model of updateHIDIConfiguration and of the os calls it uses (open/create/truncate/write/mkdir semantics as exercised); file contents abstracted to chunk-id lists cut at every length the run needs (exact for the model's operations); a crash is modelled as a prefix of the mutation list plus a partial last write. No axioms.",
+   technique="Coq proof over a file-system model with explicit mutation lists (prefix = crash point) + differential correspondence on real trees incl. strace syscall order",
+   design="§5 C18", engine="coq-model+go-overlay-harness+strace-order"),
 }
 
 def main():
